@@ -119,7 +119,8 @@ def make_replay(root, prop, f, results, tier):
     wits = []
     for u in results:
         for w in getattr(u.mod, "WITNESSES", []):
-            if prop in w.get("props", [prop]) and re.search(w["match"], f["obligation"]):
+            if prop in w.get("props", [prop]) and (re.search(w["match"], f["obligation"]) or
+                                                     (f.get("match_all_witnesses") and getattr(u, "unit", None) == f.get("unit"))):
                 wits.append(w)
         gw = getattr(u.mod, "witnesses_for", None)
         if gw:
